@@ -292,7 +292,7 @@ class CopyNative(Contract):
                 b = obj.add_data({"azimuth": {"values": np.arange(n) + 10.5, "association": assoc}})
                 c = obj.add_data({"other": {"values": np.arange(n) + 20.5, "association": assoc}})
                 # short names that are fragments of the reserved survey channel names ("A-B Cell ID", "Transmitter ID") are ordinary data
-                for extra, name in enumerate(("ID", "Cell", "B", "Transmitter")):
+                for extra, name in enumerate(("ID", "Cell", "B", "Transmitter") + (("A-B Cell ID", "Transmitter ID") if case["kind"] in ("curve", "points") else ())):  # on a plain object the reserved names themselves are ordinary data too
                     obj.add_data({name: {"values": np.arange(n) + 30.5 + extra, "association": assoc}})
                 obj.add_data_to_group([b, a], "orient")  # member order differs from creation order
                 a.entity_type.color_map = np.c_[np.linspace(0.0, 2.0, 4), np.arange(4) * 10, np.arange(4) * 20, np.arange(4) * 30, np.ones(4) * 255]
